@@ -328,8 +328,9 @@ def run(ctx):
     if thorough:
         ctx.coverage["exhaustive"] = "every (dimension, v in 0..extent) re-encoding of every generated cube, one dimension at a time"
     ctx.evaluations = len(S.lits) + S.oracle_only
-    res = core.run_cases("c05", ca.PRELUDE, S.lits, ca.CASE_TYPE, ca.CHECK_EXPR, ca.EXPLAIN_EXPR,
-                         shard_size=2500 if thorough else 400)
+    shard = 2500 if thorough else 400
+    S.spread(shard)
+    res = core.run_cases("c05", ca.PRELUDE, S.lits, ca.CASE_TYPE, ca.CHECK_EXPR, ca.EXPLAIN_EXPR, shard_size=shard)
     ca.conclude(ctx, "C05", pr, S, res, THEOREMS, HOW)
 
 
